@@ -18,6 +18,7 @@ import random
 from concurrent.futures import ThreadPoolExecutor
 
 import vlib
+import c09_tables
 
 # ------------------------------------------------------------------ options of JitAllocator
 DUAL, MULTI, FILL, IMM, NOPAD, LARGE, ALIGNLP, CUSTOM = 1, 2, 4, 8, 0x10, 0x20, 0x40, 0x10000000
@@ -30,6 +31,7 @@ DEFECTS = {
     "reset-keeps-allocation-count": (4, "fixes/C09-reset-allocation-count.patch"),
     "reset-wipes-unused-ranges": (None, "fixes/C09-reset-wipe-fill.patch"),
     "soft-reset-stale-tree-links": (None, "fixes/C09-reset-tree-links.patch"),
+    "query-accepts-padding-granule": (16, "fixes/C09-query-padding.patch"),
 }
 
 # probe histories: (slug, lines, monitor keys that show the defect)
@@ -48,6 +50,9 @@ PROBES = [
      ["H 64 65536 0", "A 131008", "A 262080", "A 524224", "Z 0", "A 64", "A 131008", "A 64", "X"], {"tree-corrupt", "crash"}),
 ]
 
+# the padding granule is not a span: query(block base) must be refused (judged directly on the implementation's answer)
+PROBES.append(("query-accepts-padding-granule", ["H 64 65536 0", "A 100", "Q 0 -64", "X"], {"query-padding"}))
+
 # monitor key -> defect slugs that can explain it (only when that defect was seen by its probe)
 EXPLAINS = {
     "not-initialized": ["is-initialized-inverted"],
@@ -60,6 +65,7 @@ EXPLAINS = {
     "fill-missing": ["reset-wipes-unused-ranges"],
     "tree-corrupt": ["soft-reset-stale-tree-links"],
     "crash": ["soft-reset-stale-tree-links", "full-block-keeps-incremental-flag"],
+    "query-padding": ["query-accepts-padding-granule"],
 }
 
 
@@ -160,7 +166,7 @@ def gen_random(rng, g, bs, opt, nops, style):
                 h.ops.append(("Q", rng.choice(dead), 0))
             else:
                 a, s = rng.choice(live)
-                h.ops.append(("Q", a, rng.choice([0, 0, 1, ge - 1, ge, rng.randrange(0, s)]) if s > ge else 0))
+                h.ops.append(("Q", a, rng.choice([0, 0, 1, ge - 1, ge, -ge, -1, rng.randrange(0, s)]) if s > ge else rng.choice([0, 0, -ge])))
         elif r < 0.91:
             h.ops.append(("W", rng.choice(live)[0]))
         elif r < 0.95:
@@ -184,13 +190,15 @@ def gen_random(rng, g, bs, opt, nops, style):
     return h
 
 
-def gen_exhaustive(depth, g, bs, opt, small=False):
+def gen_exhaustive(depth, g, bs, opt, small=False, medium=False):
     """All histories of exactly `depth` operations over a small alphabet on the minimum block size."""
     ge, bse = eff(g, bs)
     pad = 0 if opt & NOPAD else 1
     full = 2 * bse - pad * ge
     alpha = [("A", ge), ("A", 2 * ge + 1), ("A", full // 2), ("A", full), ("A", full - ge), ("A", 2 * bse), ("A", 3 * bse),
              ("R", "first"), ("R", "last"), ("S", "last", 1), ("S", "first", ge), ("Z", 0), ("Z", 1)]
+    if medium:   # quick tier: 10 letters
+        alpha = [x for x in alpha if x not in (("A", full - ge), ("A", 3 * bse), ("S", "first", ge))]
     if small:    # depth-6 alphabet: 7 letters
         alpha = [("A", ge), ("A", full), ("A", 2 * bse), ("R", "first"), ("R", "last"), ("S", "last", 1), ("Z", 0)]
     out = []
@@ -291,6 +299,21 @@ def gen_vmfail(rng, g, opt):
 def run_exe(exe, args, lines, timeout=3000):
     rc, out, err = vlib.sh([exe] + args, inp="\n".join(lines) + "\n", timeout=timeout)
     return rc, out.split("\n")[:-1] if out.endswith("\n") else out.split("\n"), err
+
+
+def padding_queries(opt, lines, ans):
+    """Independent judgement of query answers: with initial padding enabled no span starts at offset 0 of a block, so a query
+    that answers `ok <blk> 0 <len>` accepted an address inside the padding granule. Returns monitor-style reports."""
+    out = []
+    if opt & NOPAD:
+        return out
+    for i, (l, x) in enumerate(zip(lines, ans)):
+        if l.startswith("Q ") and x.startswith("Q ok "):
+            t = x.split()
+            if len(t) >= 5 and t[3] == "0":
+                out.append((i, "!V query-padding hist=- op=%d query() accepted an address inside the initial padding granule and returned "
+                               "a span that was never allocated: `%s` -> `%s`" % (i, l, x)))
+    return out
 
 
 def split_impl(lines):
@@ -579,6 +602,7 @@ def detect_defects(ck, impl):
     for slug, lines, keys in PROBES:
         rc, out, err = run_exe(impl, [], lines, timeout=120)
         ans, mon = split_impl(out)
+        mon = mon + padding_queries(int(lines[0].split()[3]), lines, ans)
         hit = [t for (_k, t) in mon if t.split()[1] in keys]
         if rc != 0 and not hit and ("crash" in keys):
             hit = ["!V crash process rc=%d" % rc]
@@ -639,13 +663,78 @@ def shrink_history(impl, model, vbits, h, ops, key, budget=250):
     return ops
 
 
+def own_regen(ck, name, text):
+    """Translator tie restricted to C09's generated file (vlib.coq_regen recompiles every property's gen files): None if the
+    text equals the committed coq/gen/<name>, else (gen_dir, failed_files, log) after recompiling it in a scratch gen dir."""
+    import shutil
+    committed = os.path.join(vlib.COQ, "gen", name)
+    if os.path.exists(committed) and open(committed).read() == text:
+        return None
+    wgen = os.path.join(ck.work, "gen")
+    shutil.rmtree(wgen, ignore_errors=True)
+    os.makedirs(wgen)
+    open(os.path.join(wgen, name), "w").write(text)
+    ck.coq_make(["theories/Jit/JitTablesCheck.vo"])
+    rc, out, err = vlib.sh(["coqc", "-Q", os.path.join(vlib.COQ, "theories"), "Verif", "-Q", wgen, "VerifGen", "-w", "-all",
+                            os.path.join(wgen, name)], cwd=wgen, timeout=600)
+    return wgen, ([name] if rc != 0 else []), (out + err)[-2000:]
+
+
 def monitor_key(text):
     return text.split()[1]
+
+
+def count_branch(stats, lines, a, i, seen_blocks):
+    """Explicit coverage counters: which case of the model's case splits (= branches of the code) an operation of the
+    implementation went through, read off its own answer (block digest: search window, flags, area_used)."""
+    br = stats["branches"]
+
+    def inc(k):
+        br[k] = br.get(k, 0) + 1
+    l, x = lines[i].split(), a[i].split()
+    if len(x) < 2:
+        return
+    if l[0] == "A":
+        if x[1] != "ok":
+            inc("alloc/error/" + x[1]); return
+        if len(x) < 12:
+            return
+        blk, ss, se, f, au, nbytes, pool = x[2], int(x[5]), int(x[6]), int(x[8]), int(x[9]), int(x[10]), int(x[11])
+        g0 = int(a[0].split()[3]) if a and a[0].startswith("H ") and len(a[0].split()) > 3 else 64
+        area = nbytes // (g0 << pool) if g0 else 0
+        inc("alloc/new-block" if blk not in seen_blocks else "alloc/existing-block")
+        seen_blocks.add(blk)
+        if au == area:
+            inc("alloc/block-becomes-full")
+        elif f & 4:
+            inc("alloc/incremental-fast-path")
+        else:
+            inc("alloc/scan-path")
+        if pool:
+            inc("alloc/coarser-pool")
+    elif l[0] == "R" and x[1] == "ok":
+        if x[-1] == "deleted":
+            inc("release/block-deleted")
+        elif len(x) >= 8:
+            f = int(x[6])
+            inc("release/block-kept-empty" if f & 1 else ("release/incremental-branch" if f & 4 else "release/general-branch"))
+    elif l[0] == "S":
+        if x[1] != "ok":
+            inc("shrink/error")
+        elif l[2] == "0":
+            inc("shrink/to-zero-is-release")
+        elif len(x) >= 9:
+            inc("shrink/incremental-branch" if int(x[7]) & 4 else "shrink/general-or-noop")
+    elif l[0] == "Z":
+        inc("reset/soft" if l[1] == "0" else "reset/hard")
+    elif l[0] == "Q":
+        inc("query/" + x[1])
 
 
 def judge_history(ck, h, hi, a, mo, m, n, present, stats):
     """Compare one history; report violations. Returns number of compared ops."""
     lines = h.lines()
+    seen_blocks = set()
     compared = 0
     cut = None            # index from which the history is not compared (poisoned impl / unsound pinned model)
     first_diff = None
@@ -667,6 +756,7 @@ def judge_history(ck, h, hi, a, mo, m, n, present, stats):
                              "with config %s" % (t[3], t[4], i, lines[i], h.tag, lines[0]),
                              {"config": lines[0], "tag": h.tag, "variant_bits": stats["vbits"], "history": lines[:i + 1] + ["X"], "impl": x})
         compared += 1
+        count_branch(stats, lines, a, i, seen_blocks)
         k = lines[i][0]
         stats["ops"][k] = stats["ops"].get(k, 0) + 1
         if x.split()[1:2] == ["ok"] or k in ("Z",):
@@ -678,6 +768,7 @@ def judge_history(ck, h, hi, a, mo, m, n, present, stats):
     # monitor reports of this history (always judged, also when model and implementation agree)
     reported = False
     explained_at = set()
+    mo = list(mo) + padding_queries(h.opt, lines, a)
     for (k, text) in mo:
         key = monitor_key(text)
         slug = None
@@ -729,10 +820,45 @@ def judge_history(ck, h, hi, a, mo, m, n, present, stats):
 
 def run(ck):
     rng = random.Random(ck.seed)
-    obl = ck.coq_properties()
+    # translator tie: constants, CreateParams normalisation, size_to_pool_id and calculate_ideal_block_size of the tree under
+    # test are re-evaluated by a dumper and re-checked against the model (coq/gen/JitTables.v, lemma tables_ok)
+    tables_text, table_counts, facts, table_rows = c09_tables.gen_tables(ck)
+    # the option bits / block flag values / default fill pattern this module and the harness protocol assume, re-read from the source
+    expected = {"OPT": [DUAL, MULTI, FILL, IMM, NOPAD, LARGE, ALIGNLP, CUSTOM], "FLAGS": [1, 2, 4, 8], "FILLPAT": [0xCCCCCCCC]}
+    for k, v in expected.items():
+        if facts.get(k) != v:
+            ck.violation("C09/tables", "enumerator values changed in the source: %s is %s, the check assumes %s" % (k, facts.get(k), v),
+                         {"broken": "tools/checks/c09.py constants vs asmjit/core/jitallocator.{h,cpp}"}, no_input=True)
+    regen = own_regen(ck, "JitTables.v", tables_text)
+    gen_dir = None
+    tables_failed = False
+    tables_log = ""
+    if regen is not None:
+        gen_dir, failed, rlog = regen
+        tables_log = rlog
+        ck.log("JitTables.v differs from the committed snapshot: regenerated in %s, failed: %s" % (gen_dir, failed))
+        tables_failed = bool(failed)
+        if False:
+            ck.violation("C09/tables", "the model's CreateParams normalisation / size_to_pool / ideal_block_size / constants no longer agree with "
+                         "the functions of jitallocator.cpp on the regenerated table: %s" % rlog[-600:],
+                         {"broken": "coq/gen/JitTables.v (tables_ok)", "file": "harness/c09_dump.cpp"}, no_input=True)
+    # (a regenerated table that does not check is reported below with its concrete rows; the theorems are then re-checked
+    #  against the committed snapshot so that one failure does not mask the state of the other theorems)
+    obl = ck.coq_properties(gen_dir=None if tables_failed else gen_dir)
     ck.log("theorems: %d, failed: %d" % (len(obl), len([o for o in obl if not o["ok"]])))
     impl = ck.build_harness("c09", ["c09_harness.cpp"])
     model = ck.ocaml_model("Extract_Jit.v", ["zconv.ml", "c09_driver.ml"], name="c09")
+    if tables_failed:
+        # tables_ok no longer checks: name the concrete rows (arguments on which the real function and the model disagree)
+        bad = c09_tables.failing_rows(model, table_rows)
+        if bad:
+            for b in bad[:3]:
+                ck.violation("C09/tables/" + b["function"].split("(")[0].split("{")[0],
+                             "translated table: %s with arguments %s gives %s in the implementation, %s in the proven model"
+                             % (b["function"], b["arguments"], b["implementation"], b["model"]), {"row": b, "broken": "coq/gen/JitTables.v (tables_ok)"})
+        else:
+            ck.violation("C09/tables", "the regenerated coq/gen/JitTables.v no longer checks: %s" % tables_log[-600:],
+                         {"broken": "coq/gen/JitTables.v (tables_ok)", "file": "harness/c09_dump.cpp"}, no_input=True)
 
     if ck.replay:
         rp = json.load(open(ck.replay))["replay"]
@@ -750,7 +876,7 @@ def run(ck):
 
     # ---- which recorded defects does this tree still have?
     present = detect_defects(ck, impl)
-    vbits = 15
+    vbits = 31
     for slug in present:
         bit = DEFECTS[slug][0]
         if bit:
@@ -784,12 +910,12 @@ def run(ck):
         for g in grans:
             hists += gen_directed(g, 65536, opt)
     for opt in optsets:
-        for g in grans:
+        for g in ([64, 256] if quick else grans):
             hists += gen_boundary(g, 65536, opt)
     n_directed = len(hists) - n_corpus
     # bounded-exhaustive
     depth = 4 if quick else 5
-    hists += gen_exhaustive(depth, 64, 65536, 0)
+    hists += gen_exhaustive(depth, 64, 65536, 0, medium=quick)
     if quick:
         for opt in (IMM, NOPAD | FILL):
             hists += gen_exhaustive(3, 64, 65536, opt)
@@ -805,7 +931,7 @@ def run(ck):
     n_exh = len(hists) - n_corpus - n_directed
     # random
     styles = ["mixed", "tiny", "words", "fill", "big", "edge"]
-    nops = 1000 if quick else 8000
+    nops = 700 if quick else 8000
     per_cfg = 1 if quick else 2
     for opt in optsets:
         for g in grans:
@@ -831,7 +957,7 @@ def run(ck):
     unmodelled = [h for h in hists if (h.opt & LARGE) or getattr(h, "monitor_only", False)]
 
     stats = {"ops": {}, "nontrivial": 0, "disagreements": 0, "q_oob": 0, "known_reports": {}, "vbits": vbits,
-             "shrunk": set(), "impl": impl, "model": model}
+             "shrunk": set(), "impl": impl, "model": model, "branches": {}}
     # balance shards: long histories first
     order = sorted(range(len(modelled)), key=lambda i: -len(modelled[i].ops))
     modelled = [modelled[i] for i in order]
@@ -865,7 +991,7 @@ def run(ck):
             cut_histories += 1
         compared += judge_history(ck, h, hi, a, mo, m, n, present, stats)
     run_judge(ck, model, [(h, res[hi][0]) for hi, h in enumerate(modelled) if hi in res], stats)
-    run_word_level(ck, impl, model, vbits, rng, 20000 if quick else 400000, stats)
+    run_word_level(ck, impl, model, vbits, rng, 12000 if quick else 400000, stats)
     for (kind, v) in errors:
         # a harness that died: attribute to the histories of that shard unless a known defect explains a crash
         if kind == "impl_error" and "soft-reset-stale-tree-links" in present:
@@ -934,14 +1060,24 @@ def run(ck):
         "proof",
         {"evaluations": compared + mon_only_ops, "distinct_nontrivial": stats["nontrivial"],
          "rule": "operations of generated allocator histories (seeded by VERIF_SEED): corpus + directed exact-fill/release patterns + all "
-                 "histories of depth %d over a 13-letter alphabet on the minimum block + block-size boundary requests (k*block_size +- 0..2 granules +- 1 byte) + random histories in 6 styles per (13 option sets x "
+                 "histories of depth %d over a 13-letter (quick: 10-letter) alphabet on the minimum block + block-size boundary requests (k*block_size +- 0..2 granules +- 1 byte) + random histories in 6 styles per (13 option sets x "
                  "granularity 64/128/256); an operation is non-trivial when it succeeded and changed or exposed allocator state "
                  "(A/R/S/Q/W ok, every reset); each counted once per (history, position)" % depth,
          "samples": samples, "ops_by_kind": stats["ops"], "histories": len(hists),
+         "proved_vs_compared": {
+             "proved (all histories, all configurations; coqc re-checks Properties_C09.v)": "%d theorems" % len(obl),
+             "translated from the source on this run and re-checked by reflection (coq/gen/JitTables.v)": sum(table_counts.values()),
+             "operations compared with the extracted model (answer, block digest, cursor, fill range)": compared,
+             "operations judged by the independent monitor only (large pages)": mon_only_ops,
+             "events judged by the proven trace judge": stats.get("judge_events", 0),
+             "word-level calls compared with C18's extracted models": stats.get("word_level_lines_compared", 0),
+             "word-level calls judged by the bit-level reference": stats.get("word_level_lines_judged_by_reference", 0)},
          "histories_by_source": {"corpus": n_corpus, "directed": n_directed, "bounded_exhaustive": n_exh, "random": n_random},
          "traces_validated_against_impl": len(modelled), "ops_compared_with_model": compared,
          "ops_monitor_only_large_pages_and_vm_failure": mon_only_ops, "vm_failures_compared_with_model": stats.get("vm_failures_modelled", 0), "histories_cut_at_known_defect": cut_histories,
          "queries_outside_block_not_compared": stats["q_oob"],
+         "branch_counters": dict(sorted(stats["branches"].items())),
+         "translated_table_rows": table_counts, "translated_tables_fast_path": regen is None,
          "word_level_lines_compared": stats.get("word_level_lines_compared", 0),
          "word_level_lines_judged_by_reference": stats.get("word_level_lines_judged_by_reference", 0),
          "traces_judged_by_proven_checker": stats.get("judge_traces", 0), "events_judged_by_proven_checker": stats.get("judge_events", 0),
